@@ -454,7 +454,8 @@ fn judge_int<T: LInt, const FMT: u128, const NOSEP: u128>(cx: &mut Cx, d: &Desc,
             (IRec::Reject(why), R::Ok(..)) => viol(cx, "C12", "accepted-ungrammatical", d, "", ty, input, format!("{why}: {}", fmt_ri(&rc))),
             _ => bump(cx, "c12.reject"),
         }
-        if d.sep != 0 && d.flags & (0xf << 20) != 0 {
+        // any separator flag, also fraction- or exponent-only ones: the integer parsers go through the same iterators
+        if d.sep != 0 && d.any_sep_flags() {
             let nc = parse_complete_opt::<T, NOSEP>(&mut cx.arena, input, place, io);
             let np = parse_partial_opt::<T, NOSEP>(&mut cx.arena, input, place, io);
             if rc != nc || rp != np {
